@@ -343,7 +343,7 @@ class P(Prop):
         "1-2 successive do_competition calls on one strategy object; 1-8 groups of 1-3 proteins over the names A-D with "
         "prefixes none/REV__/rev_/OBSOLETE__/OBSOLETE__REV__/CON__ (mostly uniform per group, sometimes mixed, sometimes "
         "repeated groups, 6 % malformed identifiers with nested/inner markers or empty names), 0-3 evidence tuples each with PEPs from {0.001, 0.01, 0.05} (rarely 1.5, above the 1.01 cutoff), "
-        "peptide names from a 6-name pool (repeats inside a group occur), protein lists inside or partly outside the group; "
+        "peptide names from a 6-name pool (repeats inside a group occur), protein lists inside or partly outside the group, 5 % with a protein listed twice; "
         "scores from the real BestPEPScore or a 4-value table; strategies picked / picked_group(all|majority|leading) / classic; "
         "non-trivial = at least two groups with evidence and (a tie of scores or a group removed by competition); "
         "distinct by sha1 of the case"
@@ -386,12 +386,16 @@ class P(Prop):
                 if extra not in prots:
                     prots.append(extra)
             seen, uniq = set(), []
-            for p in prots:  # never list a protein twice inside one peptide (C06 finding, out of scope here)
+            for p in prots:
                 if p not in seen:
                     seen.add(p)
                     uniq.append(p)
             if rng.random() < 0.3:
                 rng.shuffle(uniq)
+            if uniq and rng.random() < 0.05:
+                # gene-level shape: a protein listed twice by one peptide still counts once (distinct-peptide count;
+                # repaired in /repo by 084ff29 "count a peptide once per protein in _get_peptide_counts", finding of C06)
+                uniq.insert(rng.randint(0, len(uniq)), rng.choice(uniq))
             ev.append([rat(pep), peptide, uniq])
         return ev
 
